@@ -208,14 +208,23 @@ class SymExec:
         return self.T.mk("call", norm_path(name), tuple(gargs or ()), tuple(flat))
 
     # ---- MIR interpretation
-    def run(self, fn, args, depth=0):
-        T = self.T
+    def new_frame(self, fn, args):
         frame = [Cell() for _ in fn.locals]
         for i, a in enumerate(args):
             frame[i + 1].v = a
-        b = 0
+        return frame
+
+    def run(self, fn, args, depth=0):
+        return self.run_from(fn, self.new_frame(fn, args), 0, (), depth)
+
+    def run_from(self, fn, frame, b, stops, depth=0):
+        """straight-line evaluation from block b with a prepared frame; returns ('stop', block) when a block of `stops`
+        is about to be entered (after at least one block ran), else the function's return value"""
+        T = self.T
         seen = 0
         while True:
+            if seen and b in stops:
+                return ("stop", b)
             seen += 1
             self.steps += 1
             if seen > 20000 or self.steps > 400000:
@@ -264,12 +273,27 @@ class SymExec:
 
     def lvalue(self, fn, frame, pl):
         cell, path = frame[pl["l"]], ()
+        into_elem = False      # the pointer just dereferenced points INTO an array (to one element): indexing offsets it
         for p in pl["p"]:
+            if into_elem and isinstance(p, dict) and ("idx" in p or "cidx" in p):
+                if "idx" in p:
+                    iv = frame[p["idx"]].v
+                    ci = self.T.cval(iv) if isinstance(iv, int) else None
+                    if ci is None:
+                        raise SymFail("non-constant array index in %s" % fn.path)
+                else:
+                    ci = p["cidx"]
+                path = path[:-1] + (path[-1] + ci,)
+                into_elem = False
+                continue
+            into_elem = False
             if p == "deref":
                 v = get_path(cell.v, path)
                 if not isinstance(v, Ptr):
                     raise SymFail("deref of non-pointer in %s" % fn.path)
                 cell, path = v.cell, v.path
+                tgt = get_path(cell.v, path) if path else cell.v
+                into_elem = bool(path) and not isinstance(tgt, tuple)
             elif isinstance(p, dict) and "f" in p:
                 if not p["f"].isdigit():
                     raise SymFail("named field projection .%s" % p["f"])
@@ -284,6 +308,8 @@ class SymExec:
                 if p["from_end"]:
                     raise SymFail("from_end index")
                 path = path + (p["cidx"],)
+            elif isinstance(p, dict) and ("down" in p or "downcast" in p or "variant" in p):
+                pass        # enum payloads are modelled as the tuple of the variant's fields
             else:
                 raise SymFail("projection %s" % (p,))
         return cell, path
